@@ -724,7 +724,7 @@ def enum_lattice(rnd, idx0, tier):
                     kw = [("e", enum_value_at(pos, vals))] + ([("n", ("int", 1))] if pos != "wrapper" else [])
                     try:
                         insts.append((kw, env.classes[name](**S.realize_kwargs(kw, env))))
-                    except Exception:  # noqa  (e.g. members of a str mix-in class are rejected as objects)
+                    except Exception:  # noqa  a value the declaration rejects (before its repair, Enum.__set__ rejected the members of a str mix-in class)
                         pass
                 env.instances[name] = [("struct", name, kw) for kw, _ in insts]
                 env.top_instances = insts
